@@ -14,6 +14,7 @@ import (
 	"crypto/rand"
 	"crypto/rsa"
 	"crypto/sha256"
+	"crypto/tls"
 	"crypto/x509"
 	"encoding/json"
 	"encoding/pem"
@@ -22,6 +23,7 @@ import (
 	"net/http"
 	"net/url"
 	"path/filepath"
+	"reflect"
 	"strings"
 	"testing"
 	"time"
@@ -54,7 +56,84 @@ func c12Config(c *AppConfigFile, dir string) {
 		{ClientID: c12ClientC, ClientSecret: c12SecretC, AllowedRedirectDomains: []string{"apps.example"}},
 		{ClientID: c12ClientD, ClientSecret: "", AllowedRedirectDomains: []string{"apps.example", "svc.example"}, AllowClientChosenAudiences: true},
 	}
+	// the client-option dimension: per option and value, a client with a secret and a secret-less one carrying it
+	for _, k := range c12ClientKnobs() {
+		for _, secret := range []string{k.secret(), ""} {
+			cc := OpenIDConnectClientConfig{ClientID: k.client(secret != ""), ClientSecret: secret, AllowedRedirectDomains: []string{"apps.example"}}
+			k.set(&cc)
+			c.OpenIDConnectIDP.Client = append(c.OpenIDConnectIDP.Client, cc)
+		}
+	}
 }
+
+// ---------------------------------------------------------------- the client-option dimension
+//
+// "Tokens are released only to a caller that proves to be the client - by the secret, PKCE alone only
+// for secret-less clients" is unconditional in the client's configuration entry.  The options are found
+// by reflection over OpenIDConnectClientConfig of the CURRENT tree: every bool field (set to true) and
+// every string field other than the id and the secret (set to plausible values).  Per option and value
+// two more clients are configured through the YAML surface - one with a secret, one without - and the
+// token-endpoint product is re-run with them as callers.
+
+type c12Knob struct {
+	n     int
+	field string // Go field name (part of the failing input, never of an oracle key)
+	index int
+	kind  string // bool-knob | string-knob
+	value string
+}
+
+func c12ClientKnobs() []c12Knob {
+	var out []c12Knob
+	t := reflect.TypeOf(OpenIDConnectClientConfig{})
+	for i := 0; i < t.NumField(); i++ {
+		f := t.Field(i)
+		if f.PkgPath != "" || f.Name == "ClientID" || f.Name == "ClientSecret" {
+			continue
+		}
+		switch f.Type.Kind() {
+		case reflect.Bool:
+			out = append(out, c12Knob{n: len(out), field: f.Name, index: i, kind: "bool-knob", value: "true"})
+		case reflect.String:
+			for _, v := range []string{"true", "none"} {
+				out = append(out, c12Knob{n: len(out), field: f.Name, index: i, kind: "string-knob", value: v})
+			}
+		}
+	}
+	return out
+}
+
+func (k c12Knob) client(withSecret bool) string {
+	if withSecret {
+		return fmt.Sprintf("option%d-confidential", k.n)
+	}
+	return fmt.Sprintf("option%d-public", k.n)
+}
+
+func (k c12Knob) secret() string { return fmt.Sprintf("secret of option client %d", k.n) }
+
+func (k c12Knob) set(cc *OpenIDConnectClientConfig) {
+	f := reflect.ValueOf(cc).Elem().Field(k.index)
+	if k.kind == "bool-knob" {
+		f.SetBool(true)
+	} else {
+		f.SetString(k.value)
+	}
+}
+
+func (k c12Knob) callers() []c12Caller {
+	return []c12Caller{
+		{k.client(true), k.secret(), "alice", k.client(true), k.client(false)},
+		{k.client(false), "", "bob", k.client(false), k.client(true)},
+		{"clientX", k.secret(), "alice", k.client(true), k.client(false)},
+	}
+}
+
+// quick: every secret, verifier, challenge and location; redirect same/other/absent; code fresh/expired/other client's
+var c12KnobDims = c12Dims{[]int{0, 1}, c12Seq(3), c12Seq(3), c12Seq(5), []int{0, 1, 2}, []int{0, 1, 3}, c12Seq(3)}
+
+// thorough: the full product without the two other-kind artefacts
+var c12KnobDimsThorough = c12Dims{c12Seq(3), c12Seq(3), c12Seq(3), c12Seq(5), c12Seq(8), []int{0, 1, 2, 3}, c12Seq(3)}
 
 func c12S256(v string) string {
 	sum := sha256.Sum256([]byte(v))
@@ -330,6 +409,15 @@ type c12Site struct {
 	sid     int
 	adv     []string // id_token_signing_alg_values_supported
 	sibling *rsa.PrivateKey
+	knob    *c12Knob    // the client option the two callers of this run carry (nil: none)
+	callers []c12Caller // nil: c12Callers
+}
+
+func (s *c12Site) callerList() []c12Caller {
+	if s.callers != nil {
+		return s.callers
+	}
+	return c12Callers
 }
 
 func (s *c12Site) fetchDiscovery(t *testing.T) {
@@ -394,7 +482,9 @@ func (d c12Dims) size() int {
 	return len(d.cl) * len(d.sm) * len(d.vm) * len(d.ck) * len(d.rd) * len(d.cs) * len(d.loc)
 }
 
-var c12Callers = []struct{ id, secret, user, codeClient, otherClient string }{
+type c12Caller struct{ id, secret, user, codeClient, otherClient string }
+
+var c12Callers = []c12Caller{
 	{c04ClientA, c04SecretA, "alice", c04ClientA, c04ClientB},
 	{c04ClientB, "", "bob", c04ClientB, c04ClientA},
 	{"clientX", c04SecretA, "alice", c04ClientA, c04ClientB},
@@ -495,7 +585,7 @@ func (x *c12Run) buildCodes(s *c12Site, d c12Dims, prod *c04Produced) []*c12Code
 		return false
 	}
 	codes := make([]*c12Code, 3*5*6)
-	for cl, c := range c12Callers {
+	for cl, c := range s.callerList() {
 		for ck := 0; ck < 5; ck++ {
 			if !in(d.cl, cl) || !in(d.ck, ck) {
 				continue
@@ -521,7 +611,7 @@ func (x *c12Run) buildCodes(s *c12Site, d c12Dims, prod *c04Produced) []*c12Code
 			if real {
 				var status int
 				fresh, minted, status = env.c12Authorize(t, c.user, c.codeClient, ck)
-				if fresh == nil && (s.spec == nil || chal == "" || canSeal) {
+				if fresh == nil && s.knob == nil && (s.spec == nil || chal == "" || canSeal) {
 					t.Fatalf("%s: authorize refused client=%s ck=%d: %d", s.name, c.codeClient, ck, status)
 				}
 				x.res.bump(fmt.Sprintf("site:%s:authorize-ck%d:%d", s.name, ck, status))
@@ -576,7 +666,7 @@ func (x *c12Run) runProduct(s *c12Site, d c12Dims, codes []*c12Code) (observed [
 	t0 = time.Now().UnixNano()
 	idx := 0
 	for _, cl := range d.cl {
-		c := c12Callers[cl]
+		c := s.callerList()[cl]
 		for _, sm := range d.sm {
 			secret := []string{c.secret, c12WrongSecret, ""}[sm]
 			for _, vm := range d.vm {
@@ -618,6 +708,10 @@ func (x *c12Run) runProduct(s *c12Site, d c12Dims, codes []*c12Code) (observed [
 									combo := map[string]interface{}{"signer": s.name, "caller": c.id, "secret": c12SecretNames[sm], "verifier": c12VerifierNames[vm],
 										"challenge": c12ChalNames[ck], "redirect": c12RedirectNames[rd], "redirect_uri_values": redirects,
 										"code": c12CodeNames[cs], "location": c12LocNames[loc], "index": idx}
+									if s.knob != nil {
+										combo["client_has_secret"] = c.secret != ""
+										combo["client_option"] = map[string]interface{}{"field": s.knob.field, "value": s.knob.value, "kind": s.knob.kind}
+									}
 									observed = append(observed, 1)
 									res.bump("released")
 									// the statement's own predicate
@@ -644,7 +738,15 @@ func (x *c12Run) runProduct(s *c12Site, d c12Dims, codes []*c12Code) (observed [
 										reason = "pkce-not-matched"
 									}
 									if reason != "" {
-										x.hit("C12:released:"+reason, "the token endpoint released tokens to a caller that did not prove to be the client of a fresh code with the bound redirect URI",
+										key := "C12:released:" + reason
+										if s.knob != nil {
+											// the shape: what was not proved, and the kind of client option that was set
+											key += ":" + s.knob.kind
+											if reason == "secret-not-shown" {
+												key = "C12:release:secret-client-without-secret:" + s.knob.kind
+											}
+										}
+										x.hit(key, "the token endpoint released tokens to a caller that did not prove to be the client of a fresh code with the bound redirect URI",
 											fmt.Sprintf("tokens released although %s: %v", reason, combo), combo, map[string]interface{}{"status": rr.Code})
 									}
 									idt := newSymTok(tr.IDToken, s.sid, false, "id")
@@ -745,7 +847,7 @@ func (s *c12Site) coqEnv(codes []*c12Code) string {
 	}
 	sb.WriteString("].\n")
 	var cl []string
-	for _, c := range c12Callers {
+	for _, c := range s.callerList() {
 		cl = append(cl, fmt.Sprintf("(%s, %s)", coqStr(c.id), coqStr(c.secret)))
 	}
 	sb.WriteString(fmt.Sprintf("Definition c12_env%s : c12env :=\n  {| e_callers := [%s]; e_wrong_secret := %s; e_V := %s; e_W := %s; e_HV := %s; e_HW := %s;\n     e_red_same := %s; e_red_diff := %s; e_red_slash := %s; e_red_upper := %s; e_codes := codes%s |}.\n",
@@ -1010,7 +1112,7 @@ func (x *c12Run) runAudienceFlows(s *c12Site, authz *[]c12Authz) []c12Flow {
 				var tr tokenResponse
 				ok := rr.Code == 200 && json.Unmarshal(rr.Body.Bytes(), &tr) == nil && tr.IDToken != ""
 				fl := c12Flow{t0: f0, t1: f1, released: ok, label: fmt.Sprintf("%s credentials=%s\tstatus=%d released=%v", label, loc, rr.Code, ok)}
-				fl.coq = fmt.Sprintf("{| tr_post := true; tr_grant := %s; tr_redirect := %s; tr_code := %s; tr_verifier := %s; tr_vhash := %s; tr_basic := %s; tr_form_client := %s; tr_form_secret := %s |}",
+				fl.coq = fmt.Sprintf("{| tr_conn := conn_none; tr_post := true; tr_grant := %s; tr_redirect := %s; tr_code := %s; tr_verifier := %s; tr_vhash := %s; tr_basic := %s; tr_form_client := %s; tr_form_secret := %s |}",
 					coqStr("authorization_code"), coqStr(c12RedirectSame), env.coqToken(a.tok), coqStr(verifier), coqStr(vh), basicCoq, coqStr(fc), coqStr(fs))
 				x.res.eval("audience-flow|"+cl.id+"|"+av.name+"|"+loc+fmt.Sprint(ok), true)
 				x.res.bump("audience-flow")
@@ -1055,6 +1157,253 @@ func (x *c12Run) runAudienceFlows(s *c12Site, authz *[]c12Authz) []c12Flow {
 		}
 	}
 	return flows
+}
+
+// ---------------------------------------------------------------- the connection dimension
+//
+// "The ID token names THIS server as issuer" whatever name the caller used to reach it: the Host header
+// and the server name of the TLS handshake are both chosen by the caller (Go's TLS server completes the
+// handshake with its default certificate for an unknown name).  Token endpoint, userinfo and the
+// discovery document are driven over every combination {absent, the server's own name, a foreign name
+// in both, a different name in each}.
+
+type c12Conn struct {
+	name, host string
+	tls        bool
+	sni        string
+}
+
+func c12ConnVariants(own string) []c12Conn {
+	return []c12Conn{
+		{"no-tls-no-host", "", false, ""},
+		{"own-name", own, true, own},
+		{"own-name-with-port", own + ":443", true, own},
+		{"own-name-no-sni", own, true, ""},
+		{"own-name-no-tls", own, false, ""},
+		{"foreign-name-in-both", "accounts.idp.example", true, "accounts.idp.example"},
+		{"foreign-name-in-both-with-port", "login.other.example:8443", true, "login.other.example"},
+		{"foreign-host-own-sni", "accounts.idp.example", true, own},
+		{"own-host-foreign-sni", own, true, "accounts.idp.example"},
+		{"different-foreign-name-in-each", "a.other.example", true, "b.other.example"},
+		{"foreign-host-no-sni", "accounts.idp.example", true, ""},
+		{"foreign-host-no-tls", "accounts.idp.example", false, ""},
+		{"no-host-foreign-sni", "", true, "accounts.idp.example"},
+	}
+}
+
+func (v c12Conn) apply(req *http.Request) *http.Request {
+	req.Host = v.host
+	req.TLS = nil
+	if v.tls {
+		req.TLS = &tls.ConnectionState{Version: tls.VersionTLS12, HandshakeComplete: true, ServerName: v.sni}
+	}
+	return req
+}
+
+func (v c12Conn) coq() string {
+	sni := "None"
+	if v.tls {
+		sni = "Some " + coqStr(v.sni)
+	}
+	return fmt.Sprintf("{| cn_host := %s; cn_sni := %s |}", coqStr(v.host), sni)
+}
+
+func (v c12Conn) what() map[string]interface{} {
+	return map[string]interface{}{"connection": v.name, "host_header": v.host, "tls": v.tls, "tls_server_name": v.sni}
+}
+
+type c12ConnUserinfo struct {
+	conn     c12Conn
+	tok      *symTok
+	t0, t1   int64
+	answered bool
+	user     string
+	label    string
+}
+
+type c12ConnDiscovery struct {
+	conn          c12Conn
+	ok            bool
+	issuer, uiURL string
+	label         string
+}
+
+const c12IssuerKey = "C12:idtoken:issuer-follows-request"
+const c12IssuerOracle = "the issuer named in ID tokens, access tokens and the discovery document is this server's configured issuer, whatever Host header and TLS server name the caller announced"
+
+func (x *c12Run) runConnFlows(s *c12Site, prod *c04Produced) (flows []c12Flow, uis []c12ConnUserinfo, discs []c12ConnDiscovery) {
+	env, t := s.env, x.t
+	own := env.state.HostIdentity
+	userinfoURL := s.issuer + idpOpenIDCUserinfoPath
+	userinfoVia := func(v c12Conn, raw string) (string, bool) {
+		req := verifNewRequest("GET", idpOpenIDCUserinfoPath, nil)
+		req.Header.Set("Authorization", "Bearer "+raw)
+		rr, _ := env.serve(v.apply(req))
+		var ui openidConnectUserInfo
+		if rr.Code != 200 || json.Unmarshal(rr.Body.Bytes(), &ui) != nil {
+			return "", false
+		}
+		return ui.Subject, true
+	}
+	ownConn := c12Conn{"own-name", own, true, own}
+	for _, v := range c12ConnVariants(own) {
+		v := v
+		// ---- the discovery document
+		{
+			rr, _ := env.serve(v.apply(verifNewRequest("GET", idpOpenIDCConfigurationDocumentPath, nil)))
+			d := c12ConnDiscovery{conn: v, label: "discovery over " + v.name}
+			var md map[string]interface{}
+			if rr.Code == 200 && json.Unmarshal(rr.Body.Bytes(), &md) == nil {
+				d.ok = true
+				d.issuer, _ = md["issuer"].(string)
+				d.uiURL, _ = md["userinfo_endpoint"].(string)
+				if d.issuer != s.issuer {
+					x.hit(c12IssuerKey, c12IssuerOracle, fmt.Sprintf("discovery document fetched over %s names issuer %q, configured is %q", v.name, d.issuer, s.issuer), v.what(), md)
+				}
+				for _, m := range []string{"authorization_endpoint", "token_endpoint", "userinfo_endpoint", "jwks_uri"} {
+					if u, _ := md[m].(string); !strings.HasPrefix(u, s.issuer+"/") {
+						x.hit(c12IssuerKey, c12IssuerOracle, fmt.Sprintf("discovery document fetched over %s: %s = %q is not under the configured issuer %q", v.name, m, u, s.issuer), v.what(), md)
+					}
+				}
+			}
+			d.label += fmt.Sprintf("\tstatus=%d issuer=%q", rr.Code, d.issuer)
+			discs = append(discs, d)
+			x.res.eval("conn|discovery|"+v.name, true)
+			x.res.bump("conn-discovery")
+		}
+		// ---- the token endpoint: client with a secret (header), secret-less client (form, PKCE), client with a chosen audience
+		for _, fc := range []struct {
+			label, client, secret, user string
+			ck                          int
+			extra                       url.Values
+		}{
+			{"secret", c04ClientA, c04SecretA, "alice", 4, nil},
+			{"pkce", c04ClientB, "", "bob", 0, nil},
+			{"secret+audience", c04ClientA, c04SecretA, "alice", 4, url.Values{"audience": {c12Audience}}},
+		} {
+			chal, meth := c12Challenge(fc.ck)
+			extra := url.Values{"nonce": {c12Nonce}}
+			if chal != "" {
+				extra.Set("code_challenge", chal)
+				extra.Set("code_challenge_method", meth)
+			}
+			for k, val := range fc.extra {
+				extra[k] = val
+			}
+			raw, status := env.c04Authorize(t, fc.user, fc.client, c12RedirectSame, extra)
+			if raw == "" {
+				t.Fatalf("connection flows: authorize refused client=%s: %d", fc.client, status)
+			}
+			code := newSymTok(raw, s.sid, false, "code(authorize endpoint) for the connection flow "+fc.label)
+			form := url.Values{"grant_type": {"authorization_code"}, "code": {raw}, "redirect_uri": {c12RedirectSame}}
+			verifier, vh, basicCoq, fcl := "", "", "None", ""
+			req := (*http.Request)(nil)
+			if fc.secret == "" {
+				verifier, vh, fcl = c12V, c12S256(c12V), fc.client
+				form.Set("code_verifier", verifier)
+				form.Set("client_id", fc.client)
+				req = verifNewRequest("POST", idpOpenIDCTokenPath, form)
+			} else {
+				req = verifNewRequest("POST", idpOpenIDCTokenPath, form)
+				req.SetBasicAuth(fc.client, fc.secret)
+				basicCoq = fmt.Sprintf("Some (%s, %s)", coqStr(fc.client), coqStr(fc.secret))
+			}
+			f0 := time.Now().UnixNano()
+			rr, _ := env.serve(v.apply(req))
+			f1 := time.Now().UnixNano()
+			var tr tokenResponse
+			ok := rr.Code == 200 && json.Unmarshal(rr.Body.Bytes(), &tr) == nil && tr.IDToken != ""
+			fl := c12Flow{t0: f0, t1: f1, released: ok, label: fmt.Sprintf("token request over %s (Host %q, TLS %v, server name %q) client=%s flow=%s\tstatus=%d released=%v", v.name, v.host, v.tls, v.sni, fc.client, fc.label, rr.Code, ok)}
+			fl.coq = fmt.Sprintf("{| tr_conn := %s; tr_post := true; tr_grant := %s; tr_redirect := %s; tr_code := %s; tr_verifier := %s; tr_vhash := %s; tr_basic := %s; tr_form_client := %s; tr_form_secret := [] |}",
+				v.coq(), coqStr("authorization_code"), coqStr(c12RedirectSame), env.coqToken(code), coqStr(verifier), coqStr(vh), basicCoq, coqStr(fcl))
+			x.res.eval("conn|token|"+v.name+"|"+fc.label+fmt.Sprint(ok), true)
+			x.res.bump("conn-token")
+			w := v.what()
+			w["client"], w["flow"] = fc.client, fc.label
+			if ok {
+				fl.idt = newSymTok(tr.IDToken, s.sid, false, "id(connection flow)")
+				fl.act = newSymTok(tr.AccessToken, s.sid, false, "access(connection flow)")
+				if iss, _ := fl.idt.claims["iss"].(string); iss != s.issuer {
+					x.hit(c12IssuerKey, c12IssuerOracle, fmt.Sprintf("ID token released over %s names issuer %q, configured is %q", v.name, iss, s.issuer), w, map[string]interface{}{"id_token_claims": fl.idt.claims})
+				}
+				if iss, _ := fl.act.claims["iss"].(string); iss != s.issuer {
+					x.hit(c12IssuerKey, c12IssuerOracle, fmt.Sprintf("access token released over %s names issuer %q, configured is %q", v.name, iss, s.issuer), w, map[string]interface{}{"access_token_claims": fl.act.claims})
+				}
+				if aud, isList := c12StrList(fl.act.claims["aud"]); fc.extra != nil && (!isList || len(aud) != 2 || aud[1] != userinfoURL) {
+					x.hit(c12IssuerKey, c12IssuerOracle, fmt.Sprintf("access token released over %s has aud = %v, expected [%s, %s]", v.name, fl.act.claims["aud"], c12Audience, userinfoURL), w, map[string]interface{}{"access_token_claims": fl.act.claims})
+				}
+				if verified, kidOK, _ := s.jwks.verifies(tr.IDToken, &openIDConnectIDToken{}); !verified || !kidOK {
+					x.hit("C12:idtoken:not-under-jwks:"+s.name, "every released ID token must verify under a key served by /idp/oauth2/jwks, selected by kid", "ID token released over "+v.name+" does not verify under the published JWKS", w, nil)
+				}
+				// the access token at userinfo, reached under the server's own name and over this connection
+				u, answered := userinfoVia(ownConn, tr.AccessToken)
+				fl.userinfo, fl.uiAnswered = u, answered
+				if !answered || u != fc.user {
+					x.hit("C12:userinfo:subject", "the access token must make userinfo return the user of the authorization step",
+						fmt.Sprintf("userinfo (reached under the server's own name) answered %q (answered=%v) for the access token released over %s for a code minted for %q", u, answered, v.name, fc.user), w, map[string]interface{}{"access_token_claims": fl.act.claims})
+				}
+				c0 := time.Now().UnixNano()
+				u2, answered2 := userinfoVia(v, tr.AccessToken)
+				c1 := time.Now().UnixNano()
+				uis = append(uis, c12ConnUserinfo{conn: v, tok: fl.act, t0: c0, t1: c1, answered: answered2, user: u2,
+					label: fmt.Sprintf("userinfo over %s for the access token released over it (flow %s)\tanswered=%v user=%q", v.name, fc.label, answered2, u2)})
+				if !answered2 || u2 != fc.user {
+					x.hit("C12:userinfo:subject", "the access token must make userinfo return the user of the authorization step",
+						fmt.Sprintf("userinfo over %s answered %q (answered=%v) for the access token of a code minted for %q", v.name, u2, answered2, fc.user), w, nil)
+				}
+			}
+			flows = append(flows, fl)
+		}
+		// ---- userinfo over this connection: the server's own access token, and one naming the announced host as issuer
+		{
+			c0 := time.Now().UnixNano()
+			u, answered := userinfoVia(v, prod.access.raw)
+			c1 := time.Now().UnixNano()
+			uis = append(uis, c12ConnUserinfo{conn: v, tok: prod.access, t0: c0, t1: c1, answered: answered, user: u,
+				label: fmt.Sprintf("userinfo over %s for an access token released under the server's own name\tanswered=%v user=%q", v.name, answered, u)})
+			if !answered || u != "alice" {
+				x.hit("C12:userinfo:issuer-follows-request", "userinfo answers for this server's own access tokens whatever name the caller announced, and for no token of another issuer",
+					fmt.Sprintf("userinfo over %s answered %q (answered=%v) for an access token this server released to alice", v.name, u, answered), v.what(), nil)
+			}
+			claims := cloneClaims(prod.access.claims)
+			claims["iss"] = "https://" + v.host
+			forged := env.tokServerSigned(claims, "access token with iss = https://<the announced host> server-key")
+			c0 = time.Now().UnixNano()
+			u, answered = userinfoVia(v, forged.raw)
+			c1 = time.Now().UnixNano()
+			uis = append(uis, c12ConnUserinfo{conn: v, tok: forged, t0: c0, t1: c1, answered: answered, user: u,
+				label: fmt.Sprintf("userinfo over %s for an access token naming https://%s as issuer\tanswered=%v user=%q", v.name, v.host, answered, u)})
+			if answered && claims["iss"] != s.issuer {
+				x.hit("C12:userinfo:issuer-follows-request", "userinfo answers for this server's own access tokens whatever name the caller announced, and for no token of another issuer",
+					fmt.Sprintf("userinfo over %s answered %q for an access token whose iss is %q", v.name, u, claims["iss"]), v.what(), nil)
+			}
+			x.res.eval("conn|userinfo|"+v.name, true)
+			x.res.bump("conn-userinfo")
+		}
+	}
+	return
+}
+
+func c12CoqFlows(env *verifEnv, name string, flows []c12Flow) string {
+	var sb strings.Builder
+	sb.WriteString("Definition " + name + " : list flow := [\n")
+	for i, f := range flows {
+		sep := ";"
+		if i == len(flows)-1 {
+			sep = ""
+		}
+		obs := "None"
+		if f.released {
+			ui := "None"
+			if f.uiAnswered {
+				ui = "Some " + coqStr(f.userinfo)
+			}
+			obs = fmt.Sprintf("Some (%s, %s, %s)", env.coqClaims(f.idt), env.coqClaims(f.act), ui)
+		}
+		sb.WriteString(fmt.Sprintf(" (%s, (%d)%%Z, (%d)%%Z, %s)%s\n", f.coq, f.t0, f.t1, obs, sep))
+	}
+	sb.WriteString("].\n")
+	return sb.String()
 }
 
 func TestVerif_C12(t *testing.T) {
@@ -1157,6 +1506,42 @@ func TestVerif_C12(t *testing.T) {
 		}
 		siteRuns = append(siteRuns, sr)
 	}
+	// ---- the client-option dimension: the product re-run with, per option, a client with a secret and a
+	// secret-less client that carry it (same daemon state, same codes table layout)
+	type knobRun struct {
+		site     *c12Site
+		codes    []*c12Code
+		observed []byte
+		rel      []c12Released
+		t0, t1   int64
+	}
+	knobDims := c12KnobDims
+	if verifThorough() {
+		knobDims = c12KnobDimsThorough
+	}
+	knobs := c12ClientKnobs()
+	var knobRuns []*knobRun
+	var knobIndex []string
+	for n := range knobs {
+		k := &knobs[n]
+		ks := *main
+		ks.name, ks.suffix, ks.knob, ks.callers = fmt.Sprintf("client-option-%d(%s)", k.n, k.kind), fmt.Sprintf("_k%d", k.n), k, k.callers()
+		kr := &knobRun{site: &ks}
+		kr.codes = x.buildCodes(&ks, knobDims, nil)
+		var ix []string
+		kr.observed, kr.rel, kr.t0, kr.t1, ix = x.runProduct(&ks, knobDims, kr.codes)
+		for _, l := range ix {
+			knobIndex = append(knobIndex, fmt.Sprintf("client option %s=%s (caller 0 = client with a secret, caller 1 = secret-less client, both carry it) %s", k.field, k.value, l))
+		}
+		if len(kr.rel) == 0 {
+			hit("C12:harness:nothing-released:"+k.kind, "harness", "no combination released tokens to the clients carrying the option "+k.field, nil, nil)
+		}
+		res.Extra["released:"+ks.name] = len(kr.rel)
+		res.bump("client-option:" + k.kind)
+		knobRuns = append(knobRuns, kr)
+	}
+	res.Extra["client_options"] = len(knobs)
+
 	// outside the model: an ECDSA signer on a curve neither x/crypto/ssh nor go-jose supports.  The
 	// daemon starts; whatever it releases must still verify under its JWKS (it releases nothing:
 	// every signing path answers 500).
@@ -1247,7 +1632,7 @@ func TestVerif_C12(t *testing.T) {
 		if verifier != "" {
 			vh = c12S256(verifier)
 		}
-		coq := fmt.Sprintf("{| tr_post := %s; tr_grant := %s; tr_redirect := %s; tr_code := %s; tr_verifier := %s; tr_vhash := %s; tr_basic := %s; tr_form_client := %s; tr_form_secret := %s |}",
+		coq := fmt.Sprintf("{| tr_conn := conn_none; tr_post := %s; tr_grant := %s; tr_redirect := %s; tr_code := %s; tr_verifier := %s; tr_vhash := %s; tr_basic := %s; tr_form_client := %s; tr_form_secret := %s |}",
 			coqBool(method == "POST"), coqStr(grant), coqStr(redirect), env.coqToken(code), coqStr(verifier), coqStr(vh), basicCoq, coqStr(formClient), coqStr(formSecret))
 		tcs = append(tcs, tokCase{coq: coq, t0: s0, t1: s1, released: ok, label: label})
 		res.eval("single|"+label+fmt.Sprint(ok), true)
@@ -1368,9 +1753,22 @@ func TestVerif_C12(t *testing.T) {
 		}
 	}
 
+	// the clients of the client-option dimension at the authorization step
+	for _, k := range knobs {
+		for _, withSecret := range []bool{true, false} {
+			cl := k.client(withSecret)
+			runAuthz(fmt.Sprintf("client option %s=%s: client=%s challenge S256", k.field, k.value, cl), "GET", with("client_id", cl, "code_challenge", c12S256(c12V), "code_challenge_method", "S256"))
+			runAuthz(fmt.Sprintf("client option %s=%s: client=%s no challenge", k.field, k.value, cl), "GET", with("client_id", cl))
+		}
+	}
+
 	// ---- the audience parameter x client configuration, each followed by the redemption of the code
 	flows := x.runAudienceFlows(main, &authz)
 	res.Extra["audience_flows"] = len(flows)
+
+	// ---- the connection dimension: Host header / TLS server name at the token endpoint, userinfo, discovery
+	connFlows, connUis, connDiscs := x.runConnFlows(main, prod)
+	res.Extra["connection_flows"] = len(connFlows)
 
 	// ---- userinfo probes
 	type uiCase struct {
@@ -1550,6 +1948,53 @@ func TestVerif_C12(t *testing.T) {
 	sb.WriteString("Definition c12_keys_mismatches := Eval vm_compute in mismatches keys_bad key_cases.\nPrint c12_keys_mismatches.\n")
 	sb.WriteString("Definition idp_cases : list (keyconf * idp * list N) := [\n " + strings.Join(idpCases, ";\n ") + "].\n")
 	sb.WriteString("Definition c12_idp_mismatches := Eval vm_compute in mismatches idp_bad idp_cases.\nPrint c12_idp_mismatches.\n")
+	// the client-option dimension
+	sb.WriteString("Definition option_dims_run : dims := " + knobDims.coq() + ".\nDefinition option_combos_run := Eval vm_compute in combos_of option_dims_run.\n")
+	if !verifThorough() {
+		sb.WriteString("Definition c12_option_dims_ok : option_dims_run = option_dims := eq_refl.\n")
+	}
+	{
+		var kProd, kRel, kViol []string
+		var knobRelIndex []string
+		kRelOff := 0
+		for n, kr := range knobRuns {
+			ks := kr.site
+			sb.WriteString(ks.coqEnv(kr.codes))
+			sb.WriteString("Definition observed" + ks.suffix + " : bs := " + coqPacked(kr.observed) + ".\n")
+			sb.WriteString(fmt.Sprintf("Definition option_mm%s := Eval vm_compute in product_mismatches_on option_combos_run c12_idp c12_env%s (%d)%%Z (%d)%%Z observed%s.\n",
+				ks.suffix, ks.suffix, kr.t0, kr.t1, ks.suffix))
+			kProd = append(kProd, fmt.Sprintf("map (Nat.add %d) option_mm%s", n*knobDims.size(), ks.suffix))
+			kViol = append(kViol, fmt.Sprintf("map (Nat.add %d) (secret_violating_on option_combos_run c12_idp c12_env%s observed%s option_mm%s)", n*knobDims.size(), ks.suffix, ks.suffix, ks.suffix))
+			sb.WriteString(ks.coqReleased("released_cases"+ks.suffix, kr.rel))
+			kRel = append(kRel, fmt.Sprintf("map (Nat.add %d) (mismatches (release_bad_on option_combos_run c12_idp c12_env%s (%d)%%Z (%d)%%Z) released_cases%s)",
+				kRelOff, ks.suffix, kr.t0, kr.t1, ks.suffix))
+			for _, r := range kr.rel {
+				knobRelIndex = append(knobRelIndex, knobIndex[n*knobDims.size()+r.idx])
+			}
+			kRelOff += len(kr.rel)
+		}
+		join := func(l []string) string {
+			if len(l) == 0 {
+				return "(@nil nat)"
+			}
+			return strings.Join(l, "\n  ++ ")
+		}
+		sb.WriteString("Definition c12_option_product_mismatches := Eval vm_compute in " + join(kProd) + ".\nPrint c12_option_product_mismatches.\n")
+		sb.WriteString("Definition c12_option_release_mismatches := Eval vm_compute in " + join(kRel) + ".\nPrint c12_option_release_mismatches.\n")
+		sb.WriteString("Definition c12_option_violating := Eval vm_compute in " + join(kViol) + ".\nPrint c12_option_violating.\n")
+		sb.WriteString("Definition c12_product_secret_violating := Eval vm_compute in secret_violating_on all_combos c12_idp c12_env observed c12_product_mismatches.\nPrint c12_product_secret_violating.\n")
+		func() {
+			var a, b strings.Builder
+			for n, l := range knobIndex {
+				a.WriteString(fmt.Sprintf("%d\t%s\n", n, l))
+			}
+			for n, l := range knobRelIndex {
+				b.WriteString(fmt.Sprintf("%d\t%s\n", n, l))
+			}
+			ioutil.WriteFile(filepath.Join(verifOut(), "CasesC12_options.idx"), []byte(a.String()), 0644)
+			ioutil.WriteFile(filepath.Join(verifOut(), "CasesC12_option_released.idx"), []byte(b.String()), 0644)
+		}()
+	}
 	sb.WriteString("Definition token_cases : list (treq * Z * Z * bool) := [\n")
 	for i, c := range tcs {
 		sep := ";"
@@ -1582,6 +2027,43 @@ func TestVerif_C12(t *testing.T) {
 	sb.WriteString("Definition c12_violating := Eval vm_compute in violating_of (flow_bad c12_idp) (flow_violating c12_idp) flow_cases.\nPrint c12_violating.\n")
 	sb.WriteString("Definition c12_violating_access := Eval vm_compute in violating_of (flow_bad c12_idp) (flow_violating_access c12_idp) flow_cases.\nPrint c12_violating_access.\n")
 	sb.WriteString(fmt.Sprintf("Definition c12_release_violating := Eval vm_compute in release_violating_on all_combos c12_idp c12_env (%d)%%Z (%d)%%Z released_cases.\nPrint c12_release_violating.\n", t0, t1))
+	// the connection dimension
+	sb.WriteString(c12CoqFlows(env, "conn_cases", connFlows))
+	sb.WriteString("Definition c12_conn_mismatches := Eval vm_compute in mismatches (flow_bad c12_idp) conn_cases.\nPrint c12_conn_mismatches.\n")
+	sb.WriteString("Definition c12_conn_violating := Eval vm_compute in violating_of (flow_bad c12_idp) (flow_violating_issuer c12_idp) conn_cases.\nPrint c12_conn_violating.\n")
+	{
+		var l, d, ixF, ixU, ixD []string
+		for _, u := range connUis {
+			obs := "None"
+			if u.answered {
+				obs = "Some " + coqStr(u.user)
+			}
+			l = append(l, fmt.Sprintf(" (%s, %s, (%d)%%Z, (%d)%%Z, %s)", u.conn.coq(), env.coqToken(u.tok), u.t0, u.t1, obs))
+			ixU = append(ixU, u.label)
+		}
+		for _, c := range connDiscs {
+			obs := "None"
+			if c.ok {
+				obs = fmt.Sprintf("Some (%s, %s)", coqStr(c.issuer), coqStr(c.uiURL))
+			}
+			d = append(d, fmt.Sprintf(" (%s, %s)", c.conn.coq(), obs))
+			ixD = append(ixD, c.label)
+		}
+		for _, f := range connFlows {
+			ixF = append(ixF, f.label)
+		}
+		sb.WriteString("Definition conn_userinfo_cases : list (conn * token * Z * Z * option bs) := [\n" + strings.Join(l, ";\n") + "].\n")
+		sb.WriteString("Definition c12_conn_userinfo_mismatches := Eval vm_compute in mismatches (userinfo_conn_bad c12_idp) conn_userinfo_cases.\nPrint c12_conn_userinfo_mismatches.\n")
+		sb.WriteString("Definition conn_discovery_cases : list (conn * option (bs * bs)) := [\n" + strings.Join(d, ";\n") + "].\n")
+		sb.WriteString("Definition c12_conn_discovery_mismatches := Eval vm_compute in mismatches (discovery_bad c12_idp) conn_discovery_cases.\nPrint c12_conn_discovery_mismatches.\n")
+		for file, lines := range map[string][]string{"CasesC12_conn.idx": ixF, "CasesC12_conn_userinfo.idx": ixU, "CasesC12_conn_discovery.idx": ixD} {
+			var ix strings.Builder
+			for n, line := range lines {
+				ix.WriteString(fmt.Sprintf("%d\t%s\n", n, line))
+			}
+			ioutil.WriteFile(filepath.Join(verifOut(), file), []byte(ix.String()), 0644)
+		}
+	}
 	sb.WriteString("Definition userinfo_cases : list (token * Z * Z * option bs) := [\n")
 	for i, u := range uis {
 		sep := ";"
